@@ -15,6 +15,9 @@ WCAP_FT = {"case_type": "conn_case", "shard": 12,
            "imports": ["Lib.Bytes", "Codec.Desc", "Conn.Types", "Conn.Prog", "Conn.Sem1", "Conn.Sem3", "Run.CaseConn", "Run.CaseConn3"],
            "checkers": {"WCAP": "check_conn3"}}
 
+# family ENV (listener binary): Config::read - what the operator wrote (secret file, environment) is what is read
+ENV_FT = {"case_type": "envcase", "imports": ["Lib.Bytes", "Limiter.Limiter", "Listener.Machine", "Listener.Wire", "Run.CaseLst"], "checkers": {"ENV": "check_env"}, "shard": 50}
+
 PROPS = {
     "C09": {
         "props_file": "Props/C09.v",
@@ -233,11 +236,14 @@ PROPS = {
     },
     "C12": {
         "props_file": "Props/C12.v",
-        "run_files": ["Run/CaseC12.v", "Run/CaseConn.v", "Run/CaseC11.v"],
+        "run_files": ["Run/CaseC12.v", "Run/CaseConn.v", "Run/CaseC11.v", "Run/CaseLst.v"],
         "imports": ["Lib.Bytes", "Run.CaseC12"],
         "case_type": "c12case",
         "checkers": {"REQ": "check_c12"},
-        "harness": [{"bin": "mojang", "crate": "harness-net"}, {"bin": "conn", "max_scale": 2, "env": {"VERIF_FAMILIES": "C02,C01"}, "case_type": "conn_case", "imports": ["Lib.Bytes", "Codec.Desc", "Conn.Types", "Conn.Prog", "Conn.Sem1", "Run.CaseConn"], "checkers": {"C02": "check_c01", "C01": "check_c01"}, "shard": 40}, {"bin": "hash", "case_type": "c11case", "imports": ["Lib.Bytes", "Run.CaseC11"], "checkers": {"H": "check_c11", "D": "check_c11"}, "shard": 60}],
+        "family_types": {"ENV": ENV_FT},
+        "harness": [{"bin": "mojang", "crate": "harness-net"},
+                    # the server id as the application reads it from the environment (Config::read)
+                    {"bin": "listener", "crate": "harness-app", "families": ["ENV"], "env": {"VERIF_FAMILY": "ENV"}, "case_type": "envcase", "imports": ["Lib.Bytes", "Limiter.Limiter", "Listener.Machine", "Listener.Wire", "Run.CaseLst"], "checkers": {"ENV": "check_env"}, "shard": 50}, {"bin": "conn", "max_scale": 2, "env": {"VERIF_FAMILIES": "C02,C01"}, "case_type": "conn_case", "imports": ["Lib.Bytes", "Codec.Desc", "Conn.Types", "Conn.Prog", "Conn.Sem1", "Run.CaseConn"], "checkers": {"C02": "check_c01", "C01": "check_c01"}, "shard": 40}, {"bin": "hash", "case_type": "c11case", "imports": ["Lib.Bytes", "Run.CaseC11"], "checkers": {"H": "check_c11", "D": "check_c11"}, "shard": 60}],
         "shard": 50,
         "quick_scale": 1, "thorough_scale": 10, "search_factor": 4,
         "ties": ["Adapters/MojangUrl.v: hand model of Url::parse_with_params + form_urlencoded::byte_serialize as used by "
@@ -383,8 +389,8 @@ LST_COMMON = {
     "level_text": "PARTIAL proof: the accept/admit/deadline/drain logic is an executable Gallina machine (Listener/Machine.v) with the theorems of Props/C14-C17.v proved for every event history; the configuration path is Listener/Wire.v. That tokio's timer fires, that the scheduler runs a spawned task, and that the kernel hands over accepted sockets is exercised by the listener harness (real Listener::listen / passage::start on loopback TCP under a paused clock), not proved.",
 }
 PROPS.update({
-"C14": dict(LST_COMMON, props_file="Props/C14.v", checkers={"WIRE": "check_c14", "DL": "check_c14"},
-            harness=[{"bin": "listener", "crate": "harness-app", "families": ["WIRE", "DL"], "env": {"VERIF_FAMILY": "WIRE,DL"}}],
+"C14": dict(LST_COMMON, props_file="Props/C14.v", checkers={"WIRE": "check_c14", "DL": "check_c14"}, family_types={"ENV": ENV_FT},
+            harness=[{"bin": "listener", "crate": "harness-app", "families": ["WIRE", "DL", "ENV"], "env": {"VERIF_FAMILY": "WIRE,DL,ENV"}}],
             allowed_axioms=[], assumptions=["timer events are delivered (C14_deadline hypothesis)", "1 <= max_packet_length < 2^31"],
             rule="WIRE: passage::start with max {64,100,300,1000,10000,20000} x expiry {1,100,3600,21600,50000,86400}; DL: timeout {3,10,20,40} s x 11 client behaviours x PROXY; non-trivial = every case"),
 "C15": dict(LST_COMMON, props_file="Props/C15.v", checkers={"ADM": "check_c15"},
